@@ -17,6 +17,7 @@ import (
 	"sort"
 	"strings"
 	"sync"
+	"time"
 
 	"github.com/wolimst/lib-secs2-hsms-go/pkg/ast"
 	"github.com/wolimst/lib-secs2-hsms-go/pkg/parser/hsms"
@@ -26,6 +27,7 @@ import (
 func init() {
 	drivers["conc"] = driverConc
 	drivers["conc-cold"] = driverConcCold
+	drivers["conc-hammer"] = driverConcHammer
 }
 
 type concCall struct {
@@ -39,6 +41,8 @@ type shared struct {
 	complete *ast.DataMessage
 	bytes    []byte
 	smlText  string
+	wide     ast.ItemNode // the wide list that is part of all three shared objects
+	wideText string       // what it prints alone (computed on a twin)
 }
 
 func newShared() *shared {
@@ -54,9 +58,10 @@ func newShared() *shared {
 	}
 	wideKids[35] = ast.NewListNode(inner...)
 	wide := ast.NewListNode(wideKids...)
+	wideText := fmt.Sprint(ast.NewListNode(append([]interface{}{}, wideKids...)...)) // (a twin: the shared one is not printed here)
 	t := ast.NewListNode(ast.NewUintNode(1, "x", 7), ast.NewASCIINodeVariable("s", 1, 3), "v",
 		ast.NewListNode(ast.NewIntNode(2, "y"), "...[0]"), wide, "...[1]")
-	s := &shared{template: t}
+	s := &shared{template: t, wide: wide, wideText: wideText}
 	// (the text the SML parser calls share is the small template without the wide list: parsing is the slowest call)
 	s.smlText = ast.NewDataMessage("msg", 1, 1, 2, "H->E", ast.NewListNode(ast.NewUintNode(1, "x", 7), ast.NewASCIINodeVariable("s", 1, 3), "v",
 		ast.NewListNode(ast.NewIntNode(2, "y"), "...[0]"), "...[1]")).String()
@@ -204,8 +209,9 @@ func driverConc(c *Ctx) {
 				cheap = false
 			}
 		}
+		reps := 1
 		if cheap {
-			rounds *= 12
+			reps = 4 // back to back inside every goroutine: the calls overlap at ever different phases
 		}
 		got := make([][]string, rounds)
 		for r := 0; r < rounds; r++ {
@@ -217,7 +223,14 @@ func driverConc(c *Ctx) {
 				go func(k int) {
 					defer wg.Done()
 					<-gate
-					got[r][k] = s.exec(cs[k], fmt.Sprintf("_%d_%d_%d", i, r, k))
+					first := s.exec(cs[k], fmt.Sprintf("_%d_%d_%d", i, r, k))
+					for rep := 1; rep < reps; rep++ {
+						if x := s.exec(cs[k], fmt.Sprintf("_%d_%d_%d", i, r, k)); x != first {
+							first = x + "(!=" + first + ")" // the same call gave two answers
+							break
+						}
+					}
+					got[r][k] = first
 				}(k)
 			}
 			close(gate)
@@ -365,4 +378,107 @@ func readConfigs(path string) [][]concCall {
 		configs = append(configs, cs)
 	}
 	return configs
+}
+
+// conc-hammer: eight goroutines call observers in tight loops, for a fixed time, on small shared objects that contain
+// one wide list at three different depths (alone, one level down in a message, three levels down in a complete
+// message). Every answer is compared with the answer of an untouched twin. This is the schedule a log-everything
+// application produces; a memo that is updated in two steps shows here even when every single access is atomic.
+func driverConcHammer(c *Ctx) {
+	mk := func() (ast.ItemNode, *ast.DataMessage, *ast.DataMessage) {
+		var kids []interface{}
+		for k := 0; k < 40; k++ {
+			kids = append(kids, ast.NewUintNode(1, k))
+		}
+		kids[17] = ast.NewListNode(ast.NewASCIINode("in"), ast.NewBinaryNode(1, 2))
+		wide := ast.NewListNode(kids...)
+		m := ast.NewDataMessage("Report", 6, 11, 1, "H<-E", ast.NewListNode(ast.NewASCIINode("report"), wide))
+		cm := ast.NewHSMSDataMessage("c", 3, 5, 1, "H<-E", ast.NewListNode(ast.NewListNode(ast.NewListNode(wide))), 77, []byte{9, 8, 7, 6})
+		return wide, m, cm
+	}
+	type call struct {
+		op, obj string
+		f       func(w ast.ItemNode, m, cm *ast.DataMessage) string
+	}
+	onObj := func(obj string, item func(ast.ItemNode) string, msg func(*ast.DataMessage) string) func(ast.ItemNode, *ast.DataMessage, *ast.DataMessage) string {
+		return func(w ast.ItemNode, m, cm *ast.DataMessage) string {
+			switch obj {
+			case "template":
+				return item(w)
+			case "message":
+				return msg(m)
+			}
+			return msg(cm)
+		}
+	}
+	var all []call
+	for _, obj := range []string{"template", "message", "complete"} {
+		all = append(all,
+			call{"String", obj, onObj(obj, func(x ast.ItemNode) string { return fmt.Sprint(x) }, func(x *ast.DataMessage) string { return x.String() })},
+			call{"ToBytes", obj, onObj(obj, func(x ast.ItemNode) string { return string(x.ToBytes()) }, func(x *ast.DataMessage) string { return string(x.ToBytes()) })},
+			call{"Variables", obj, onObj(obj, func(x ast.ItemNode) string { return strings.Join(x.Variables(), ",") }, func(x *ast.DataMessage) string { return strings.Join(x.Variables(), ",") })},
+		)
+	}
+	groups := map[string][]call{"String": nil, "ToBytes": nil, "Variables": nil, "mixed": all}
+	for _, cl := range all {
+		groups[cl.op] = append(groups[cl.op], cl)
+	}
+	names := []string{"String", "ToBytes", "Variables", "mixed"}
+	for gi, name := range names {
+		if !c.want(gi) {
+			continue
+		}
+		calls := groups[name]
+		cj := []interface{}{}
+		for _, cl := range calls {
+			cj = append(cj, J{"op": cl.op, "obj": cl.obj})
+		}
+		c.emit(gi, J{"ev": "begin", "variant": 0, "calls": cj})
+		c.out.Flush()
+		w, m, cm := mk()
+		tw, tm, tcm := mk() // the twin
+		want := make([]string, len(calls))
+		for k, cl := range calls {
+			want[k] = cl.f(tw, tm, tcm)
+		}
+		bad := make([]string, len(calls))
+		var mu sync.Mutex
+		var wg sync.WaitGroup
+		deadline := time.Now().Add(time.Duration(c.N) * time.Millisecond)
+		const workers = 8
+		for g := 0; g < workers; g++ {
+			wg.Add(1)
+			go func(g int) {
+				defer wg.Done()
+				for n := 0; ; n++ {
+					k := (g + n) % len(calls)
+					if name != "mixed" {
+						k = g % len(calls) // each goroutine stays with one object: the same node at one depth, over and over
+					}
+					if got := calls[k].f(w, m, cm); got != want[k] {
+						mu.Lock()
+						bad[k] = dig(got)
+						mu.Unlock()
+						return
+					}
+					if n%64 == 0 && time.Now().After(deadline) {
+						return
+					}
+				}
+			}(g)
+		}
+		wg.Wait()
+		solo, got, after := make([]string, len(calls)), make([]string, len(calls)), make([]string, len(calls))
+		for k, cl := range calls {
+			solo[k] = dig(want[k])
+			got[k] = solo[k]
+			if bad[k] != "" {
+				got[k] = bad[k]
+			}
+			after[k] = dig(cl.f(w, m, cm))
+		}
+		c.emit(gi, J{"ev": "conc", "variant": 1, "calls": cj, "solo": solo, "got": got, "after": after, "rounds": 1, "outcome": "returned", "hammer": name})
+		c.out.Flush()
+		c.count("hammer.groups")
+	}
 }
